@@ -315,12 +315,12 @@ func controllingFacts(c *km.Ctx, b *ssa.BasicBlock) []km.Fact {
 }
 
 func checkLevelFlag(c *km.Ctx, s *km.Sem, h *ssa.Function, flag *ssa.Phi) {
-	checkLevelFlagRec(c, s, h, flag, map[*ssa.Phi]bool{})
+	checkLevelFlagRec(c, s, h, flag, map[*ssa.Phi]bool{}, nil)
 }
 
 // checkLevelFlagRec: visited holds the flags already judged (a flag set from another flag hands its obligation
 // on to that flag, which is then judged by the same rule).
-func checkLevelFlagRec(c *km.Ctx, s *km.Sem, h *ssa.Function, flag *ssa.Phi, visited map[*ssa.Phi]bool) {
+func checkLevelFlagRec(c *km.Ctx, s *km.Sem, h *ssa.Function, flag *ssa.Phi, visited map[*ssa.Phi]bool, listParam *ssa.Parameter) {
 	if visited[flag] {
 		return
 	}
@@ -339,6 +339,9 @@ func checkLevelFlagRec(c *km.Ctx, s *km.Sem, h *ssa.Function, flag *ssa.Phi, vis
 		ia, ok := u.X.(*ssa.IndexAddr)
 		if !ok {
 			return false
+		}
+		if listParam != nil && km.Unwrap(ia.X) == ssa.Value(listParam) {
+			return true
 		}
 		_, path, ok := km.FieldPath(ia.X)
 		return ok && strings.HasSuffix(path, "Base.AllowedAuthBackendsForCerts")
@@ -397,7 +400,7 @@ func checkLevelFlagRec(c *km.Ctx, s *km.Sem, h *ssa.Function, flag *ssa.Phi, vis
 									}
 								}
 								if isPhi {
-									checkLevelFlagRec(c, s, h, q, visited)
+									checkLevelFlagRec(c, s, h, q, visited, listParam)
 									d, good = "licensed through flag "+km.ValStr(q), true
 								}
 							}
@@ -718,6 +721,13 @@ func checkLevelDecision(c *km.Ctx, s *km.Sem, call *ssa.Call) {
 	isErr := isErrorType(d.Signature.Results().At(0).Type())
 	for _, rc := range s.RetCases(d) {
 		v := km.Unwrap(rc.Results[0])
+		// the helper keeps the flag inside and hands it back: the flag is judged assignment by assignment
+		if phi, isPhi := v.(*ssa.Phi); isPhi && !isErr && isBoolFlagPhi(phi) {
+			before := len(c.R.Obls)
+			checkLevelFlagRec(c, s, d, phi, map[*ssa.Phi]bool{}, listParam)
+			n += len(c.R.Obls) - before
+			continue
+		}
 		var descs []string
 		ok, nTrue := true, 0
 		if isErr && km.Nilness(rc.Results[0]) > 0 {
